@@ -197,8 +197,10 @@ func (n *networkAddressTranslator) translateOutbound(from Chunk) (Chunk, error) 
 			mapp := n.findOutboundMapping(oKey)
 			if mapp == nil {
 				// Create a new mapping
-				mappedPort := 0xC000 + n.udpPortCounter
-				n.udpPortCounter++
+				mappedPort, ok := n.assignUDPPort()
+				if !ok {
+					return nil, fmt.Errorf("drop %s as %w", from.String(), errPortSpaceExhausted)
+				}
 
 				mapp = &mapping{
 					proto:   from.SourceAddr().Network(),
@@ -298,6 +300,31 @@ func (n *networkAddressTranslator) translateInbound(from Chunk) (Chunk, error) {
 	}
 
 	return nil, errNonUDPTranslationNotSupported
+}
+
+// assignUDPPort picks the next port of the dynamic range (49152-65535) that
+// no live mapping holds. It returns false if all of them are in use.
+// caller must hold the mutex.
+func (n *networkAddressTranslator) assignUDPPort() (int, bool) {
+	const portBase, numPorts = 0xC000, 0x4000
+
+	now := time.Now()
+	for i := 0; i < numPorts; i++ {
+		port := portBase + n.udpPortCounter
+		n.udpPortCounter = (n.udpPortCounter + 1) % numPorts
+
+		m, ok := n.inboundMap[fmt.Sprintf("udp:%s:%d", n.mappedIPs[0].String(), port)]
+		if !ok {
+			return port, true
+		}
+		if now.After(m.expires) {
+			n.removeMapping(m)
+
+			return port, true
+		}
+	}
+
+	return 0, false
 }
 
 // caller must hold the mutex.
